@@ -10,7 +10,9 @@ c11 = importlib.util.module_from_spec(_spec)
 _spec.loader.exec_module(c11)
 
 BINDINGS_Q = [{"filler": 0, "paysz": 0}, {"filler": 60, "paysz": 40}, {"filler": 900, "paysz": 250}, {"filler": 30, "paysz": 5000},
-              {"filler": 40, "paysz": 64000, "paymin": 61000}, {"filler": 500, "paysz": 60, "noabove": True, "alignlast": True, "lastgap": 5}]
+              {"filler": 40, "paysz": 64000, "paymin": 61000}, {"filler": 500, "paysz": 60, "noabove": True, "alignlast": True, "lastgap": 5},
+              {"filler": 400, "paysz": 40, "keypad": 900}, {"filler": 60, "paysz": 40, "keypad": 1800, "replicas": 24},
+              {"filler": 150, "paysz": 120, "replicas": 16}]
 BINDINGS_T = BINDINGS_Q + [{"filler": 8000, "paysz": 80}, {"filler": 300, "paysz": 20000}]
 
 
